@@ -208,7 +208,8 @@ def island_jobs(cases, planners, n_cases, rng):
                 runs.append({"planner": p["name"], "space": rng.choice(["R2", "R2", "SE2", "R3"]), "thr": rng.choice(["tiny", "cell"]),
                              "range": rng.choice(["default", "default", "tiny"]),
                              "budget": rng.choice([3000, 6000]) if p["flags"] & (F_MT | F_SLOW) else rng.choice([400, 1500]),
-                             "seed": rng.randrange(1, 1 << 30), "res": 0.01, "query": q, "params": pick_params(p, rng, prob=0.7)})
+                             "seed": rng.randrange(1, 1 << 30), "res": 0.01, "query": q, "apart": rng.random() < 0.75,
+                             "params": pick_params(p, rng, prob=0.7)})
         rng.shuffle(runs)
         for i in range(0, len(runs), 8):
             jobs.append({"case": c, "runs": runs[i:i + 8]})
@@ -323,7 +324,7 @@ def replay(path):
         case = {"W": r["W"], "H": r["H"], "obst": r["obst"], "start": r["start"], "goal": r["goal"]}
         run = {"planner": r["planner"], "space": r["space"], "thr": r["thr"], "range": r["range"],
                "budget": r["budget"], "seed": r["seed"], "res": r.get("resFrac", 10000) / 1e6,
-               "query": r.get("query", "single"), "params": r.get("params", {})}
+               "query": r.get("query", "single"), "params": r.get("params", {}), "apart": r.get("apart", False)}
         jp = os.path.join(d, "job.ndjson")
         vlib.write_ndjson(jp, [{"case": case, "runs": [run]}])
         out = os.path.join(d, "rerun.ndjson")
